@@ -1,7 +1,8 @@
 (* GF(2^8) with the reduction polynomial x^8+x^4+x^3+x^2+1 (0x11d) - the field of
    klauspost/reedsolomon (generatingPolynomial = 29, generator 2).  INDEPENDENT of that library:
    no log/exp tables; multiplication is the shift-and-add ("Russian peasant") product reduced by
-   0x11d, the inverse is a^254.  Elements are Z in [0,256).  No proofs in this file. *)
+   0x11d (the coefficient a is multiplied by X once per bit of the data byte x, which makes the
+   product linear in x by construction), the inverse is a^254.  Elements are Z in [0,256).  No proofs in this file. *)
 From Coq Require Import ZArith List Bool.
 Import ListNotations.
 Local Open Scope Z_scope.
@@ -10,13 +11,14 @@ Local Open Scope Z_scope.
 Definition xtime (x : Z) : Z :=
   let y := 2 * x in if 256 <=? y then Z.lxor (y - 256) 29 else y.
 
-Fixpoint gmul_n (n : nat) (a b : Z) : Z :=
+(* a * x = sum over the set bits i of x of (a * X^i): linear in x bit by bit *)
+Fixpoint gmul_bits (n : nat) (i : Z) (a x : Z) : Z :=
   match n with
   | O => 0
-  | S n' => Z.lxor (if Z.odd a then b else 0) (gmul_n n' (Z.div2 a) (xtime b))
+  | S n' => Z.lxor (if Z.testbit x i then a else 0) (gmul_bits n' (i + 1) (xtime a) x)
   end.
 
-Definition gmul (a b : Z) : Z := gmul_n 8 a b.
+Definition gmul (a x : Z) : Z := gmul_bits 8 0 a x.
 Definition gadd (a b : Z) : Z := Z.lxor a b.
 
 (* a^n, with a^0 = 1 for every a (galExp(a, 0) = 1, also for a = 0) *)
